@@ -16,6 +16,45 @@ fn sllv_stub(a: __m256i, c: __m256i) -> __m256i { let (a, c) = (lanes(a), lanes(
 fn add_stub(a: __m256i, b: __m256i) -> __m256i { let (a, b) = (lanes(a), lanes(b)); let mut r = [0u64; 4]; let mut i = 0; while i < 4 { r[i] = a[i].wrapping_add(b[i]); i += 1; } pack(r) }
 fn sub_stub(a: __m256i, b: __m256i) -> __m256i { let (a, b) = (lanes(a), lanes(b)); let mut r = [0u64; 4]; let mut i = 0; while i < 4 { r[i] = a[i].wrapping_sub(b[i]); i += 1; } pack(r) }
 
+// _mm256_sll_epi64 / _mm256_srl_epi64: all lanes shifted by the low 64 bits of the count register (0 when count > 63)
+fn sll_stub(a: __m256i, count: std::arch::x86_64::__m128i) -> __m256i {
+    let c: [u64; 2] = unsafe { std::mem::transmute(count) };
+    let a = lanes(a);
+    let mut r = [0u64; 4];
+    let mut i = 0;
+    while i < 4 { r[i] = if c[0] < 64 { a[i] << c[0] } else { 0 }; i += 1; }
+    pack(r)
+}
+fn srl_stub(a: __m256i, count: std::arch::x86_64::__m128i) -> __m256i {
+    let c: [u64; 2] = unsafe { std::mem::transmute(count) };
+    let a = lanes(a);
+    let mut r = [0u64; 4];
+    let mut i = 0;
+    while i < 4 { r[i] = if c[0] < 64 { a[i] >> c[0] } else { 0 }; i += 1; }
+    pack(r)
+}
+// _mm256_i64gather_epi64::<SCALE>(base, idx): four loads base + idx[i]*SCALE bytes (the harness' pointer checks apply)
+unsafe fn gather_stub<const SCALE: i32>(base: *const i64, idx: __m256i) -> __m256i {
+    let ix: [i64; 4] = unsafe { std::mem::transmute(idx) };
+    let mut r = [0u64; 4];
+    let mut i = 0;
+    while i < 4 {
+        r[i] = unsafe { *((base as *const u8).offset((ix[i] as isize) * (SCALE as isize)) as *const i64) } as u64;
+        i += 1;
+    }
+    pack(r)
+}
+fn eq<const L: usize>(a: &[i64; L], b: &[i64; L]) -> bool {
+    let mut i = 0;
+    while i < L {
+        if a[i] != b[i] {
+            return false;
+        }
+        i += 1;
+    }
+    true
+}
+
 const H62: i64 = 1i64 << 62;
 const H61: i64 = 1i64 << 61;
 fn arr<const L: usize>(h: i64) -> [i64; L] {
@@ -31,12 +70,15 @@ fn arr<const L: usize>(h: i64) -> [i64; L] {
 macro_rules! avx_harness {
     ($name:ident, $body:expr) => {
         #[kani::proof]
-        #[kani::unwind(12)]
+        #[kani::unwind(20)]
         #[kani::stub(alloc::fmt::format, fmt_stub)]
         #[kani::stub(std::arch::x86_64::_mm256_srlv_epi64, srlv_stub)]
         #[kani::stub(std::arch::x86_64::_mm256_sllv_epi64, sllv_stub)]
         #[kani::stub(std::arch::x86_64::_mm256_add_epi64, add_stub)]
         #[kani::stub(std::arch::x86_64::_mm256_sub_epi64, sub_stub)]
+        #[kani::stub(std::arch::x86_64::_mm256_sll_epi64, sll_stub)]
+        #[kani::stub(std::arch::x86_64::_mm256_srl_epi64, srl_stub)]
+        #[kani::stub(std::arch::x86_64::_mm256_i64gather_epi64, gather_stub)]
         fn $name() {
             $body
         }
@@ -45,34 +87,34 @@ macro_rules! avx_harness {
 
 // ---- add / sub / negate families: lengths 5 (one SIMD block + tail) and 9 (two blocks + tail) ----
 fn add_family<const L: usize>() {
-    let (a, b, r0): ([i64; L], [i64; L], [i64; L]) = (arr::<L>(H62), arr::<L>(H62), arr::<L>(H61));
+    let (a, b, r0): ([i64; L], [i64; L], [i64; L]) = (arr::<L>(H61), arr::<L>(H61), arr::<L>(H61));
     let (mut x, mut y) = ([0i64; L], [0i64; L]);
     unsafe { znx_add_avx(&mut x, &a, &b) };
     znx_add_ref(&mut y, &a, &b);
-    assert!(x == y, "C10:znx_add");
+    assert!(eq(&x, &y), "C10:znx_add");
     unsafe { znx_sub_avx(&mut x, &a, &b) };
     znx_sub_ref(&mut y, &a, &b);
-    assert!(x == y, "C10:znx_sub");
+    assert!(eq(&x, &y), "C10:znx_sub");
     let (mut x, mut y) = (r0, r0);
     unsafe { znx_add_assign_avx(&mut x, &a) };
     znx_add_assign_ref(&mut y, &a);
-    assert!(x == y, "C10:znx_add_assign");
+    assert!(eq(&x, &y), "C10:znx_add_assign");
     let (mut x, mut y) = (r0, r0);
     unsafe { znx_sub_assign_avx(&mut x, &a) };
     znx_sub_assign_ref(&mut y, &a);
-    assert!(x == y, "C10:znx_sub_assign");
+    assert!(eq(&x, &y), "C10:znx_sub_assign");
     let (mut x, mut y) = (r0, r0);
     unsafe { znx_sub_negate_assign_avx(&mut x, &a) };
     znx_sub_negate_assign_ref(&mut y, &a);
-    assert!(x == y, "C10:znx_sub_negate_assign");
+    assert!(eq(&x, &y), "C10:znx_sub_negate_assign");
     let (mut x, mut y) = ([0i64; L], [0i64; L]);
     unsafe { znx_negate_avx(&mut x, &a) };
     znx_negate_ref(&mut y, &a);
-    assert!(x == y, "C10:znx_negate");
+    assert!(eq(&x, &y), "C10:znx_negate");
     let (mut x, mut y) = (a, a);
     unsafe { znx_negate_assign_avx(&mut x) };
     znx_negate_assign_ref(&mut y);
-    assert!(x == y, "C10:znx_negate_assign");
+    assert!(eq(&x, &y), "C10:znx_negate_assign");
 }
 avx_harness!(c10_add_family__len5, add_family::<5>());
 avx_harness!(c10_add_family__len9, add_family::<9>());
@@ -87,15 +129,15 @@ fn mul_pow2_family<const L: usize>() {
     let (mut x, mut y) = ([0i64; L], [0i64; L]);
     unsafe { znx_mul_power_of_two_avx(k, &mut x, &a) };
     znx_mul_power_of_two_ref(k, &mut y, &a);
-    assert!(x == y, "C10:znx_mul_power_of_two");
+    assert!(eq(&x, &y), "C10:znx_mul_power_of_two");
     let (mut x, mut y) = (a, a);
     unsafe { znx_mul_power_of_two_assign_avx(k, &mut x) };
     znx_mul_power_of_two_assign_ref(k, &mut y);
-    assert!(x == y, "C10:znx_mul_power_of_two_assign");
+    assert!(eq(&x, &y), "C10:znx_mul_power_of_two_assign");
     let (mut x, mut y) = (r0, r0);
     unsafe { znx_mul_add_power_of_two_avx(k, &mut x, &a) };
     znx_mul_add_power_of_two_ref(k, &mut y, &a);
-    assert!(x == y, "C10:znx_mul_add_power_of_two");
+    assert!(eq(&x, &y), "C10:znx_mul_add_power_of_two");
 }
 avx_harness!(c10_mul_pow2__len5, mul_pow2_family::<5>());
 
@@ -106,7 +148,7 @@ fn switch_ring_pair<const LI: usize, const LO: usize>() {
     let (mut x, mut y) = (r0, r0);
     unsafe { znx_switch_ring_avx(&mut x, &a) };
     znx_switch_ring_ref(&mut y, &a);
-    assert!(x == y, "C10:znx_switch_ring");
+    assert!(eq(&x, &y), "C10:znx_switch_ring");
 }
 avx_harness!(c10_switch_ring__8_to_8, switch_ring_pair::<8, 8>());
 avx_harness!(c10_switch_ring__16_to_8, switch_ring_pair::<16, 8>());
@@ -126,7 +168,7 @@ fn norm_family<const L: usize>(b: usize) {
         #[allow(unused_unsafe)]
         unsafe { $avx(&mut x1, &mut c1) };
         $rf(&mut x2, &mut c2);
-        assert!(x1 == x2 && c1 == c2, $msg);
+        assert!(eq(&x1, &x2) && eq(&c1, &c2), $msg);
     }}; }
     cmp2!(|x: &mut [i64; L], c: &mut [i64; L]| znx_normalize_first_step_carry_only_avx(b, lsh, &a, c), |x: &mut [i64; L], c: &mut [i64; L]| znx_normalize_first_step_carry_only_ref(b, lsh, &a, c), "C10:first_step_carry_only");
     cmp2!(|x: &mut [i64; L], c: &mut [i64; L]| { *x = a; znx_normalize_first_step_assign_avx(b, lsh, x, c) }, |x: &mut [i64; L], c: &mut [i64; L]| { *x = a; znx_normalize_first_step_assign_ref(b, lsh, x, c) }, "C10:first_step_assign");
@@ -156,12 +198,12 @@ fn digit_family<const L: usize>(b: usize) {
     let (mut r2, mut s2) = (r0, s0);
     unsafe { znx_extract_digit_addmul_avx(b, sh, &mut r1, &mut s1) };
     znx_extract_digit_addmul_ref(b, sh, &mut r2, &mut s2);
-    assert!(r1 == r2 && s1 == s2, "C10:extract_digit_addmul");
+    assert!(eq(&r1, &r2) && eq(&s1, &s2), "C10:extract_digit_addmul");
     let (mut r1, mut s1) = (s0, r0);
     let (mut r2, mut s2) = (s0, r0);
     unsafe { znx_normalize_digit_avx(b, &mut r1, &mut s1) };
     znx_normalize_digit_ref(b, &mut r2, &mut s2);
-    assert!(r1 == r2 && s1 == s2, "C10:normalize_digit");
+    assert!(eq(&r1, &r2) && eq(&s1, &s2), "C10:normalize_digit");
 }
 avx_harness!(c10_digit__b17_len5, digit_family::<5>(17));
 avx_harness!(c10_digit__b52_len5, digit_family::<5>(52));
